@@ -15,23 +15,22 @@ Definition w_sch : schema :=
     (3, mk_sinfo KLeaf (Some 2) [] false true [[55]] [] false 0 None OBytes) ].
 Definition w_l (c : dnode) : dnode := DN 0 [] false [] [DN 1 [49] false [] []; c].
 
-(* merge: A = no instance; B = l[1] { c { x = 7 explicitly } }; C = l[1] { c (default) { x = 7 (default) } }.
-   diff(A,B) creates the instance; diff(B,C) is a none on x with the default flag set.  lyd_diff_merge_none() sets the
-   flag of x in the created subtree but the created containers stay explicit (no lyd_np_cont_dflt_set walk in the diff
-   tree), so applying the merged diff to A creates c WITHOUT the default flag although all its children carry it. *)
+(* merge (regression case of the former finding merge-npcont-dflt, fixed by 2dd55cd): A = no instance;
+   B = l[1] { c { x = 7 explicitly } }; C = l[1] { c (default) { x = 7 (default) } }.  diff(A,B) creates the instance;
+   diff(B,C) is a none on x with the default flag set.  lyd_diff_merge_none() sets the flag of x in the created subtree
+   and, through lyd_diff_merge_dflt_flag(), the flag of the created container c, so the merged diff creates C exactly. *)
 Definition w_A : forest := [].
 Definition w_B : forest := [w_l (DN 2 [] false [] [DN 3 [55] false [] []])].
 Definition w_C : forest := [w_l (DN 2 [] true [] [DN 3 [55] true [] []])].
-Definition w_C_got : forest := [w_l (DN 2 [] false [] [DN 3 [55] true [] []])].
 
-Lemma merge_apply_witness :
+Lemma merge_apply_regression :
   wfb w_sch w_A = true /\ wfb w_sch w_B = true /\ wfb w_sch w_C = true /\
   exists d1 d2 m, diff w_sch true w_A w_B = Ok d1 /\ diff w_sch true w_B w_C = Ok d2 /\
-                  merge w_sch false (map redup d1) d2 = Ok m /\ apply w_sch m w_A = Ok w_C_got /\ w_C_got <> w_C.
+                  merge w_sch false (map redup d1) d2 = Ok m /\ apply w_sch m w_A = Ok w_C.
 Proof.
   split; [vm_compute; reflexivity|]. split; [vm_compute; reflexivity|]. split; [vm_compute; reflexivity|].
   eexists _, _, _. split; [vm_compute; reflexivity|]. split; [vm_compute; reflexivity|].
-  split; [vm_compute; reflexivity|]. split; [vm_compute; reflexivity|]. discriminate.
+  split; [vm_compute; reflexivity|]. vm_compute. reflexivity.
 Qed.
 
 (* reverse twice: A = l[1] { c { x = 5 } }, B = l[1] { c (default) { x = 7 (default) } }.  In diff(A,B) the duplicated
@@ -124,10 +123,10 @@ Lemma merge_r_found inh_s src inh_t l1 t l2 i sop cur :
   eff_op inh_t (dd_op t) = Some cur ->
   merge_r sch mdflt inh_s src inh_t (l1 ++ t :: l2) =
     match (match sop with
-           | OpReplace => merge_replace sch cur t src
+           | OpReplace => merge_replace sch cur (forallb dd_dflt (l1 ++ l2)) t src
            | OpCreate => merge_create sch mdflt cur t src
            | OpDelete => merge_delete sch cur t src
-           | OpNone => merge_none sch cur t src
+           | OpNone => merge_none sch cur (forallb dd_dflt (l1 ++ l2)) t src
            end) with
     | Err e => Err e
     | Ok (t1, sg1) =>
@@ -150,10 +149,10 @@ Proof.
   cbn [merge_r]. rewrite Hu, Hs, Hi, (dd_match_idx_split l1 t l2 i Ht Hn).
   rewrite nth_split_at, Hc, others_split.
   destruct (match sop with
-            | OpReplace => merge_replace sch cur t (DD s v f op od ov ch)
+            | OpReplace => merge_replace sch cur (forallb dd_dflt (l1 ++ l2)) t (DD s v f op od ov ch)
             | OpCreate => merge_create sch mdflt cur t (DD s v f op od ov ch)
             | OpDelete => merge_delete sch cur t (DD s v f op od ov ch)
-            | OpNone => merge_none sch cur t (DD s v f op od ov ch)
+            | OpNone => merge_none sch cur (forallb dd_dflt (l1 ++ l2)) t (DD s v f op od ov ch)
             end) as [[t1 sg1]|e]; [|reflexivity].
   destruct (merge_children sch _ (is_np_cont sch s) (forallb dd_dflt (l1 ++ l2)) true ch (dd_ch t1) (dd_dflt t1) [])
     as [[[ch' fl'] ups]|e]; [|reflexivity].
@@ -611,7 +610,7 @@ Proof.
       rewrite (merge_r_found inh_s (DD ss vs fs ops (Some (d_dflt b)) (Some (d_val b)) []) inh_t l1
                              (DD st vt ft opt (Some (d_dflt a)) (Some (d_val a)) []) l2 i OpReplace OpReplace
                              (nouo_all Hnouo _) Se Sid Tid Hl1 Te).
-      unfold merge_replace, dd_change_term.
+      unfold merge_replace, dd_change_term, dd_merge_dflt_flag.
       cbn [dd_sid dd_val dd_dflt dd_op dd_oval dd_odflt dd_ch dd_set_op dd_set_val dd_set_dflt dd_set_oval].
       rewrite Tk, Eva in *. rewrite Tne, beq_bytes_refl'.
       cbn [dd_set_op dd_set_oval dd_set_dflt merge_children dd_ch dd_dflt dd_set_ch dd_op].
@@ -635,7 +634,7 @@ Proof.
       rewrite (merge_r_found inh_s (DD ss vs fs ops (Some (d_dflt b)) ovs []) inh_t l1
                              (DD st vt ft opt (Some (d_dflt a)) ovt []) l2 i OpNone OpNone
                              (nouo_all Hnouo _) Se Sid Tid Hl1 Te).
-      unfold merge_none, dd_is_term. cbn [dd_sid dd_dflt]. rewrite St.
+      unfold merge_none, dd_is_term, dd_merge_dflt_flag. cbn [dd_sid dd_dflt]. rewrite St.
       cbn [dd_set_dflt merge_children dd_ch dd_dflt dd_set_ch dd_op].
       unfold is_redundant, dd_is_term. cbn [dd_sid dd_odflt dd_dflt dd_op]. rewrite Te, Tt, Efa, Bool.eqb_reflx.
       eexists. reflexivity.
